@@ -131,6 +131,28 @@ def small_mnemonics_domain(w, vocab_names=("mov", "movz", "push", "pop", "nop", 
 DOMAINS = {"att_mem": att_mem_domain, "regs": regs_domain, "att_mem_regs": att_mem_regs_domain, "small_mnemonics": small_mnemonics_domain}
 
 
+def literal_names(pattern):
+    """mnemonic / operand names written literally in a pattern (reference side), longest first"""
+    out = []
+
+    def walk(n, key=False):
+        if isinstance(n, str):
+            if n and n[0] not in "$&@" and n.isalnum() and n not in out:
+                out.append(n)
+        elif isinstance(n, list):
+            for x in n:
+                walk(x)
+        elif isinstance(n, dict):
+            for k, v in n.items():
+                if k in ("times", "min", "max"):
+                    continue
+                walk(k)
+                walk(v)
+
+    walk(pattern)
+    return sorted(out, key=lambda x: (-len(x), x))
+
+
 def check_template(tpl):
     """-> result dict (picklable)"""
     from . import jasmapi
@@ -234,7 +256,7 @@ def check_template(tpl):
                 TW = sM.seq(tpl["twin"], K2, (1,))
                 v1, _ = q.check(inter(WF12, LM, comp(TW)))
                 v2, _ = q.check(inter(WF12, TW, comp(LM)))
-                obligation("TWIN", "-", "refuted" if "sat" in (v1, v2) else "NOT-REFUTED")
+                obligation("TWIN", "-", "refuted" if "sat" in (v1, v2) else ("NOT-REFUTED" if (v1, v2) == ("unsat", "unsat") else "unknown"))
 
             if "SA" in lem or "HX" in lem or "VAL" in lem:
                 L0 = rx.lang_at_start(tU, east, U.ANY, (0,), (0,))
@@ -281,13 +303,33 @@ def check_template(tpl):
                     ok = creal.match(s) is not None
                     obligation("VAL", "member", "ok" if ok else "MISMATCH", stream=s)
                     # end to end: the same witness as objdump-style text through MasterOfPuppets (parser included)
-                    try:
-                        listing = jasmapi.render_listing(jasmapi.decode_stream(s))
-                        if listing is not None and jasmapi.parse_listing(listing) == s:
-                            got = jasmapi.run_pipeline(doc, listing, tpl.get("macros"), all_matches=False, ret="bool")
-                            obligation("E2E", "member", "ok" if got is True else "MISMATCH", stream=s)
-                    except Exception as e:
-                        obligation("E2E", "member", "MISMATCH", stream=s, detail=f"{type(e).__name__}: {e}")
+                    def e2e(s, tag):
+                        try:
+                            listing = jasmapi.render_listing(jasmapi.decode_stream(s))
+                            if listing is not None and jasmapi.parse_listing(listing) == s:
+                                try:
+                                    got = jasmapi.run_pipeline(doc, listing, tpl.get("macros"), all_matches=False, ret="bool")
+                                except Exception as e:
+                                    got = f"{type(e).__name__}: {e}"
+                                if got is True:
+                                    obligation("E2E", tag, "ok", stream=s)
+                                else:
+                                    # the listing parses to s, the compiled rule matches s at its start and the reference finds the
+                                    # pattern there: a pipeline that does not answer "found" contradicts the property itself
+                                    oa = bool(orc.ends(pattern, jasmapi.decode_stream(s), 0))
+                                    obligation("E2E", tag, "NOTFOUND", stream=s, listing=listing, detail=str(got), confirmed=oa)
+                        except Exception as e:
+                            obligation("E2E", tag, "MISMATCH", stream=s, detail=f"{type(e).__name__}: {e}")
+
+                    e2e(s, "member")
+                    if tpl.get("e2e_absent"):
+                        # further members chosen by the solver so that one of the rule's literal names does NOT occur anywhere in
+                        # the listing (possible when the name sits in an optional, alternative or negated part): the pipeline
+                        # must not take a short cut that demands it
+                        for nm in literal_names(pattern)[:5]:
+                            v2, w2 = q.check(inter(WF0, L0, comp(z3.Concat(U.ANY, U.lit(nm, (0,)), U.ANY))))
+                            if v2 == "sat":
+                                e2e(U.decode(w2)[0], f"without:{nm}")
                     # end to end, negative: perturb the witness (swap the case of every letter of mnemonics/operands);
                     # if the compiled regex, applied directly, no longer matches anywhere, the pipeline must say not found
                     try:
@@ -359,7 +401,9 @@ def run_templates(run, templates, procs=16):
             if lemma == "ENCODE":
                 run.harness_error(f"template {r['id']}: {o.get('detail')}")
             elif lemma == "TWIN":
-                if v != "refuted":
+                if v == "unknown":
+                    run.inconc(f"template {r['id']}: wrong-spec twin gave no verdict (timeout)")
+                elif v != "refuted":
                     run.harness_error(f"template {r['id']}: wrong-spec twin was not distinguished (vacuous encoding?)")
             elif lemma == "E2EN":
                 if v == "MISMATCH":
@@ -373,7 +417,10 @@ def run_templates(run, templates, procs=16):
                 elif v == "agree":
                     run.count("second_solver_agreements")
             elif lemma == "E2E":
-                if v == "MISMATCH":
+                if v == "NOTFOUND" and o.get("confirmed"):
+                    run.count("disagreements_replayed")
+                    run.failure(f"{r['feature']}/E2E/-", f"template={r['id']}: the listing rendered from {o.get('stream')!r} parses back to that stream, the compiled rule matches it and the reference finds the pattern, but the match pipeline answers {o.get('detail')}", {"kind": "e2e", "template": tpl, "regex": r["regex"], "stream": o.get("stream"), "listing": o.get("listing")})
+                elif v in ("MISMATCH", "NOTFOUND"):
                     run.harness_error(f"template {r['id']}: end-to-end run on rendered witness {o.get('stream')!r} did not find the pattern ({o.get('detail')})")
                 else:
                     run.count("traces_validated_end_to_end")
@@ -600,18 +647,23 @@ print("RESULT " + json.dumps(out))
 """
 
     def run_seq(seq, d):
-        p = subprocess.run([_sys.executable, "-c", script, SRC, _json.dumps(items), _json.dumps(seq), d], capture_output=True, text=True, timeout=120)
+        sub = os.path.join(d, "s" + "_".join(map(str, seq)))  # stable paths WITHIN one sequence; sequences do not share files
+        os.makedirs(sub, exist_ok=True)
+        p = subprocess.run([_sys.executable, "-c", script, SRC, _json.dumps(items), _json.dumps(seq), sub], capture_output=True, text=True, timeout=300)
         for line in p.stdout.splitlines():
             if line.startswith("RESULT "):
                 return _json.loads(line[7:])
         raise RuntimeError(p.stderr[-400:])
 
-    with jasmapi.scratch() as d:
-        fresh = [run_seq([k], d)[0] for k in range(len(items))]
-        for i in range(len(items)):
-            for j in range(len(items)):
-                got = run_seq([i, j], d)[-1]
-                run.count("compile_sequences_checked")
-                if got != fresh[j]:
-                    run.count("disagreements_replayed")
-                    run.failure(f"{key_prefix}/SEQUENCE", f"compiling '{items[j][0]}' after '{items[i][0]}' gives {got[:120]!r}, in a fresh process {fresh[j][:120]!r}", {"kind": "sequence", "items": items, "seq": [i, j]})
+    from concurrent.futures import ThreadPoolExecutor
+
+    n = len(items)
+    with jasmapi.scratch() as d, ThreadPoolExecutor(12) as ex:
+        fresh = [r[0] for r in ex.map(lambda k: run_seq([k], d), range(n))]
+        pairs = [(i, j) for i in range(n) for j in range(n)]
+        for (i, j), res in zip(pairs, ex.map(lambda ij: run_seq(list(ij), d), pairs)):
+            got = res[-1]
+            run.count("compile_sequences_checked")
+            if got != fresh[j]:
+                run.count("disagreements_replayed")
+                run.failure(f"{key_prefix}/SEQUENCE", f"compiling '{items[j][0]}' after '{items[i][0]}' gives {got[:120]!r}, in a fresh process {fresh[j][:120]!r}", {"kind": "sequence", "items": items, "seq": [i, j]})
